@@ -326,6 +326,25 @@ func (c *Ctx) computeEffects(fns map[*ssa.Function]bool) *effects {
 							}
 							continue
 						}
+						// standard-library functions that reorder or overwrite the elements of their first argument
+						if sc := cc.StaticCallee(); sc != nil && externalMutators[sc.String()] && len(cc.Args) > 0 {
+							o := e.rootOf(cc.Args[0], 0)
+							et := writtenTypeOfContainer(cc.Args[0])
+							var sliceV ssa.Value = cc.Args[0]
+							if mi, ok := cc.Args[0].(*ssa.MakeInterface); ok {
+								sliceV = mi.X
+								et = writtenTypeOfContainer(mi.X)
+							}
+							if et == "" {
+								// the elements themselves are what is written: name them by their type
+								if st, ok := sliceV.Type().Underlying().(*types.Slice); ok {
+									et = namedType(st.Elem())
+								}
+							}
+							if note(f, o, x.Pos(), sc.String()+" reorders the elements of a slice in place, field of "+et, et) {
+								changed = true
+							}
+						}
 						// callees
 						var callees []*ssa.Function
 						if sc := cc.StaticCallee(); sc != nil {
@@ -375,6 +394,13 @@ func (c *Ctx) computeEffects(fns map[*ssa.Function]bool) *effects {
 		}
 	}
 	return e
+}
+
+// externalMutators: functions outside the module that write into (the backing array of) their first argument.
+var externalMutators = map[string]bool{
+	"sort.Slice": true, "sort.SliceStable": true, "sort.Sort": true, "sort.Stable": true, "sort.Strings": true, "sort.Ints": true,
+	"sort.Float64s": true, "slices.Sort": true, "slices.SortFunc": true, "slices.SortStableFunc": true, "slices.Reverse": true,
+	"math/rand.Shuffle": true,
 }
 
 // derivesFromReslice: the value is x[:k] of something, possibly carried round a loop through phis and appends.
